@@ -39,7 +39,9 @@ def run(ctx):
         "taken while the shrinker frees a 770-block file: checked after recovery and again after the half-freed numbers have been reused (then nothing may be half-freed)",
         "build-then-delete rounds: files of every size class (inside a block, direct, indirect, double-indirect), sparse growth, holes filled by reads, nested directories, renames over "
         "targets, failing requests, oversized writes, disks small enough to run out of space; directed: REMOVE / RENAME-over of a file whose truncation is still running in the background; "
-        "crash workload of the free mix; quiescent images of sequential and concurrent histories",
+        "crash workload of the free mix; quiescent images of sequential and concurrent histories; at the level of shared disk blocks (M7d, any number of files): "
+        "removal_gives_back_every_block (dropping the content of one file — a directory is a file of slots — leaves each of its blocks with nobody, zeroed, and the one-owner invariant intact)",
         ["as C04 for the image; free counts are read from the allocators after waiting for the shrinker threads"],
-        pending=["reclaim of DIRECTORY blocks stated on M7e (the slot writes are proved to be putSlot/set on the decoded slot list, Props/C04; the freeing of a removed directory's blocks is the file case: truncation_frees_exactly_what_it_unmaps)"],
+        pending=[],
+
         partial=["for all histories / crash points / schedules: sampled, not proved"])
